@@ -16,7 +16,7 @@ import (
 	"verif/checks/c07/guard"
 )
 
-const rule = "metadata/config: DecodeMetadata and config.Decode into a struct with one field of every supported kind (scalars, pointers, durations, metadata.Duration, duration and string slices, byte sizes, time, custom StringDecoder, nested / squashed / pointer-to structs, maps, interfaces, aliased fields) on EVERY map with one entry and every map with two entries over (field names incl. upper-case and alias spellings and an unknown key) x (value alphabet: nil, \"\", x, 1, -1, 1.5, true, 1h, 1Ki, huge numbers, huge exponents, lists, nested maps and slices, wrong kinds incl. typed nil pointers, pointers, channels, funcs) [quick: pairs over a core of 12 names x 14 values], in 6 input container kinds; Normalize / PrefixedBy on every tree of depth <= 3 over 9 node kinds; Duration.UnmarshalJSON / ToISOString and ByteSize.GetBytes on token alphabets. non-trivial = nil error."
+const rule = "metadata/config: DecodeMetadata and config.Decode into a struct with one field of every supported kind (scalars, pointers, durations, metadata.Duration, duration and string slices, byte sizes, time, custom StringDecoder, nested / squashed / pointer-to structs, maps, interfaces, aliased fields) on EVERY map with one entry and every map with two entries over (field names incl. upper-case and alias spellings and an unknown key) x (value alphabet: nil, \"\", x, 1, -1, 1.5, true, 1h, 1Ki, huge numbers, huge exponents, lists, nested maps and slices, wrong kinds incl. typed nil pointers, pointers, channels, funcs) [quick: pairs over a core of 12 names x 14 values], in 7 input container kinds; Normalize / PrefixedBy on every tree of depth <= 3 over 9 node kinds; Duration.UnmarshalJSON / ToISOString and ByteSize.GetBytes on token alphabets. non-trivial = nil error."
 
 // ---- targets --------------------------------------------------------------------
 
@@ -161,7 +161,7 @@ func descEntries(es []entry) string {
 }
 
 // containers builds the different input shapes for the same entries.
-var mdContainers = []string{"map[string]any", "map[string]string", "map[any]any", "JSON string", "struct{Properties map[string]string}", "struct{Properties map[string]any}"}
+var mdContainers = []string{"map[string]any", "map[string]string", "map[any]any", "JSON string", "struct{Properties map[string]string}", "struct{Properties map[string]any}", "struct{Properties metadata.Properties}"}
 
 func stringable(v any) (string, bool) {
 	switch x := v.(type) {
@@ -185,7 +185,7 @@ func container(kind string, es []entry) (any, bool) {
 			m[e.k] = e.v.v
 		}
 		return m, true
-	case "map[string]string", "struct{Properties map[string]string}":
+	case "map[string]string", "struct{Properties map[string]string}", "struct{Properties metadata.Properties}":
 		m := map[string]string{}
 		for _, e := range es {
 			s, ok := stringable(e.v.v)
@@ -196,6 +196,9 @@ func container(kind string, es []entry) (any, bool) {
 		}
 		if kind == "map[string]string" {
 			return m, true
+		}
+		if kind == "struct{Properties metadata.Properties}" {
+			return struct{ Properties metadata.Properties }{m}, true
 		}
 		return struct {
 			Name       string
